@@ -145,9 +145,9 @@ func init() {
 			hist, ops, variants := 4, 45, "few"
 			if tier == "thorough" {
 				// (20 histories x 64 configurations with exhaustive index subsets took hours on this VM)
-				hist, ops, variants = 6, 100, "exhaustive"
+				hist, ops, variants = 4, 90, "exhaustive"
 			}
-			for i, c := range limitServed(configsFor(tier, seed+2, 14, 42), 2, seed) {
+			for i, c := range limitServed(configsFor(tier, seed+2, 14, 28), 2, seed) {
 				if i%2 == 1 {
 					c.FlushInterval = 60 // as in conf/global.yaml: the periodic flush is rate limited, a forced one (rotation, shutdown) is not
 				}
